@@ -1,0 +1,44 @@
+//go:build verif
+
+package fp
+
+import "github.com/csgura/fp/internal/atomic"
+
+// This file exists only under the verif build tag. It exposes the seams the
+// deterministic simulator in /verif needs: the yield hook of internal/atomic
+// (an internal package the harness cannot import) and the goroutine spawn
+// of the default executor.
+
+// VerifSetAtomicHook installs f as the hook called before every atomic step
+// of a Promise (Get/Load/Store/CAS). nil removes it.
+func VerifSetAtomicHook(f func(op string)) {
+	atomic.VerifHook = f
+}
+
+// VerifYield calls the installed hook, if any. Used by other packages of the
+// module (mutable) for their own yield points.
+func VerifYield(op string) {
+	if h := atomic.VerifHook; h != nil {
+		h(op)
+	}
+}
+
+var verifSpawnHook func(r Runnable) bool
+
+// VerifSetSpawnHook installs f as the owner of goroutine creation of the
+// default executor: when f returns true the runnable has been taken over
+// and no goroutine is started.
+func VerifSetSpawnHook(f func(r Runnable) bool) {
+	verifSpawnHook = f
+}
+
+// VerifSpawn hands r to the installed spawn hook. It reports false when no
+// hook is installed or the hook declined.
+func VerifSpawn(r Runnable) bool {
+	if h := verifSpawnHook; h != nil {
+		return h(r)
+	}
+	return false
+}
+
+func verifSpawn(r Runnable) bool { return VerifSpawn(r) }
